@@ -38,7 +38,7 @@ func (w ttWrite) matches(b Bound, d int, s eval.Score, m board.Move) bool {
 	return b == w.bound && d == w.depth && s == w.score && m == w.move
 }
 
-func refVal(w ttWrite) int { return (w.ply + (w.depth << 1)) & 0xffff }
+func refTTVal(w ttWrite) int { return (w.ply + (w.depth << 1)) & 0xffff }
 
 // C11/C17: table geometry for every size (bounded so that the slot count stays small).
 func Harness_C11_TableSize() {
@@ -64,7 +64,7 @@ func harnessTTSeq(slots uint64) {
 	ok2 := w2.do(tt)
 	same := uint64(w1.hash)&tt.mask == uint64(w2.hash)&tt.mask
 	if same {
-		verifAssert(ok2 == (refVal(w1) <= refVal(w2)), "a store replaces exactly an entry of no greater replacement value")
+		verifAssert(ok2 == (refTTVal(w1) <= refTTVal(w2)), "a store replaces exactly an entry of no greater replacement value")
 	} else {
 		verifAssert(ok2, "a store into an empty slot succeeds")
 	}
@@ -138,7 +138,7 @@ func harnessTTConcurrent(slots uint64) {
 		verifAssert(ok1 || ok2, "at least one of two competing stores succeeds")
 		// the surviving entry is one of no smaller replacement value than the other, unless the other lost the race as the first writer
 		b, d, s, m, ok := tt.Read(w2.hash)
-		if ok && w1.hash == w2.hash && refVal(w1) > refVal(w2) {
+		if ok && w1.hash == w2.hash && refTTVal(w1) > refTTVal(w2) {
 			verifAssert(w1.matches(b, d, s, m), "a store never replaces an entry of greater replacement value")
 		}
 		_ = b
